@@ -76,6 +76,7 @@ class B:
             # ---- wf: core and state distance modes stay equal; tool flags stay consistent
             ctx.check(f"wf core/state distance mode [{tag}]", o1["_distance_mode"].idx == e.heap[self.sref.oid]["_current_distance_mode"].idx, e, ["C01", "C07", "C05"], "inv")
             ctx.check(f"wf tool flags consistent [{tag}]", wf_tool(w, e.heap, self.sref), e, ["C07", "C02"], "inv", known.get("wf_tool"))
+            ctx.check(f"wf tracked positions finite [{tag}]", AND(*[OR(c.none, c.inner.finite) for c in list(o1["_current_axes"].items()) + list(e.heap[self.sref.oid]["_current_axes"].items())]), e, ["C01", "C03"], "inv")
             ctx.check(f"wf params shared [{tag}]", z3.BoolVal(e.heap[self.sref.oid]["_current_params"].oid == o1["_current_params"].oid), e, ["C07"], "inv")
             # ---- C02 safety and C03 bounds on every emitted block, in the modal / machine state it is emitted in
             ms, M = self.ms0, self.M0
@@ -257,3 +258,324 @@ def u_emergency(ctx):
                 ctx.check("C06 final block is M30 iff reset", cmd_is(blocks[3][1], "M30") == reset.t, e, ["C06"], "post")
                 ctx.check("C06 third block is the message comment", AND(blocks[2][1].has_comment, z3.BoolVal(len(blocks[2][1].params.present) == 0)), e, ["C06", "C09"], "post")
             ctx.check("C06 reports tool and coolant inactive", AND(NOT(fld(e.heap, b.sref, "_is_tool_active").t), NOT(fld(e.heap, b.sref, "_is_coolant_active").t)), e, ["C06"], "post")
+
+
+# ---------------------------------------------------------------------------------------------- halt family / tool change
+HALT_TEMP = {"WAIT_FOR_BED": "bed-temperature", "WAIT_FOR_HOTEND": "hotend-temperature", "WAIT_FOR_CHAMBER": "chamber-temperature"}
+
+
+def halt_args(ctx, st):
+    e, wf = sym_enum("HaltMode", ctx.w, arg=True)
+    kw, wfk, reals = mk_kwargs(st, keys=("S", "R", "P", "K"), comment=False, prefix="hk")
+    return [e], kw, AND(wf, wfk), reals
+
+
+@unit("GCodeBuilder.halt", GEN)
+def u_halt_b(ctx):
+    b = B(ctx, "halt", halt_args)
+    (mode,) = b.args
+    kd = b.h0[b.kwargs.oid]["$d"]
+    off = mode.idx == member(ctx, "HaltMode", "OFF")
+    bad_arg = OR(off, NOT(valid(ctx, mode, "HaltMode")))
+    tool0, cool0 = fld(b.h0, b.sref, "_is_tool_active").t, fld(b.h0, b.sref, "_is_coolant_active").t
+    # the temperature the call asks for: S if given, else R (first of the two that is present), when not None
+    pS, vS, pR, vR = kd.present["S"], kd.vals["S"], kd.present["R"], kd.vals["R"]
+    temp = merge(simp(pS), vS, merge(simp(pR), vR, VOpt(T, vS.inner)))
+    bad_temp = F
+    for name, key in HALT_TEMP.items():
+        bad_temp = OR(bad_temp, AND(mode.idx == member(ctx, "HaltMode", name), NOT(temp.none), NOT(bound_ok(b.h0, b.info, key, temp.inner))))
+    nonfinite = OR(*[AND(kd.present[k], NOT(kd.vals[k].none), NOT(kd.vals[k].inner.finite)) for k in kd.present])
+    interlock = AND(NOT(bad_arg), OR(tool0, cool0))
+    raises_iff(ctx, b.exits, {
+        "ValueError": OR(bad_arg, AND(NOT(interlock), OR(bad_temp, nonfinite))),
+        "ToolStateError": AND(NOT(bad_arg), tool0),
+        "CoolantStateError": AND(NOT(bad_arg), NOT(tool0), cool0),
+    }, props=["C02", "C03"])
+    # known finding: the halt mode (and an accepted temperature) is committed before a later parameter is rejected
+    late_reject = AND(NOT(bad_arg), NOT(interlock), OR(bad_temp, nonfinite))
+    both = AND(pS, NOT(vS.none), pR, NOT(vR.none))
+    b.generic(known={"C05": ("KF-C05-halt-late-reject", late_reject), "C07": lambda e: ("KF-C05-halt-late-reject", late_reject) if e.kind == "raise" else None,
+                     "C03": ("KF-C03-halt-second-temperature-word", both)})
+    for e in b.exits:
+        if e.kind == "return":
+            b.emits_exactly(e, [modal.GUARDED_HALT[1:]], ["C02", "C07"], "one halt/wait block")
+            ctx.check("C02 a halt is emitted only with tool and coolant off", AND(NOT(tool0), NOT(cool0)), e, ["C02"], "post")
+
+
+def _halt_wrapper(method, mk, codes):
+    @unit(f"GCodeBuilder.{method}", GEN)
+    def u(ctx):
+        b = B(ctx, method, mk)
+        tool0, cool0 = fld(b.h0, b.sref, "_is_tool_active").t, fld(b.h0, b.sref, "_is_coolant_active").t
+        raises_iff(ctx, b.exits, {"ToolStateError": tool0, "CoolantStateError": AND(NOT(tool0), cool0)}, props=["C02"])
+        b.generic()
+        for e in b.exits:
+            if e.kind == "return": b.emits_exactly(e, [codes], ["C02", "C07"])
+    return u
+
+
+def one_bool(ctx, st): return [VBool(fresh("flag", z3.BoolSort()))], None, T, []
+
+
+_halt_wrapper("wait", no_args, ("M400",))
+_halt_wrapper("pause", one_bool, ("M00", "M01"))
+_halt_wrapper("stop", one_bool, ("M02", "M30"))
+
+
+@unit("GCodeBuilder.tool_change", GEN)
+def u_tool_change(ctx):
+    b = B(ctx, "tool_change", enum_num("ToolSwapMode", isint=True))
+    mode, n = b.args
+    bad_arg = OR(mode.idx == member(ctx, "ToolSwapMode", "OFF"), NOT(valid(ctx, mode, "ToolSwapMode")))
+    tool0, cool0 = fld(b.h0, b.sref, "_is_tool_active").t, fld(b.h0, b.sref, "_is_coolant_active").t
+    bad_number = OR(NOT(bound_ok(b.h0, b.info, "tool-number", n)), n.val < 1)
+    raises_iff(ctx, b.exits, {
+        "ValueError": OR(bad_arg, bad_number),
+        "ToolStateError": AND(NOT(bad_arg), NOT(bad_number), tool0),
+        "CoolantStateError": AND(NOT(bad_arg), NOT(bad_number), NOT(tool0), cool0),
+    }, props=["C02", "C03"])
+    b.generic()
+    for e in b.exits:
+        if e.kind == "return":
+            b.emits_exactly(e, ["M06"], ["C02", "C07"])
+            blk = emitted(e.log)[0][1]
+            p, v = ghost._axis_word(blk, "T") if False else (blk.params.present.get("T", F), blk.params.vals.get("T"))
+            ctx.check("T word carries the requested tool number", AND(p, v_same(v, n)) if v is not None else F, e, ["C07", "C03"], "post")
+
+
+# ---------------------------------------------------------------------------------------------- plain setters
+def _enum_setter(method, cls, field, codes, props=GEN):
+    @unit(f"GCodeBuilder.{method}", props)
+    def u(ctx):
+        b = B(ctx, method, enum_arg(cls))
+        (m,) = b.args
+        raises_iff(ctx, b.exits, {"ValueError": NOT(valid(ctx, m, cls))}, props=["C02", "C05"])
+        b.generic()
+        for e in b.exits:
+            if e.kind == "return":
+                if codes: b.emits_exactly(e, [codes], ["C07"])
+                else: b.emits_exactly(e, [], ["C07"], "nothing")
+                if field: ctx.check(f"{field} recorded", fld(e.heap, b.sref, field).idx == m.idx, e, ["C07"], "post")
+    return u
+
+
+_enum_setter("set_plane", "Plane", "_current_plane", ("G17", "G18", "G19"))
+_enum_setter("set_distance_mode", "DistanceMode", "_current_distance_mode", ("G90", "G91"))
+_enum_setter("set_extrusion_mode", "ExtrusionMode", "_current_extrusion_mode", ("M82", "M83"))
+_enum_setter("set_feed_mode", "FeedMode", "_current_feed_mode", ("G93", "G94", "G95"))
+_enum_setter("set_time_units", "TimeUnits", "_current_time_units", None)
+_enum_setter("set_temperature_units", "TemperatureUnits", "_current_temperature_units", None)
+_enum_setter("set_direction", "Direction", "_current_direction", None)
+_enum_setter("query", "QueryMode", None, ("M105", "M114"))
+
+
+def _num_cmd(method, key, field, code, nonneg):
+    @unit(f"GCodeBuilder.{method}", GEN)
+    def u(ctx):
+        b = B(ctx, method, one_num)
+        (v,) = b.args
+        ok = AND(bound_ok(b.h0, b.info, key, v), v.finite)
+        if nonneg: ok = AND(ok, NOT(n_lt(v, ZERO)))
+        raises_iff(ctx, b.exits, {"ValueError": NOT(ok)}, props=["C03", "C02"])
+        b.generic()
+        for e in b.exits:
+            if e.kind == "return":
+                b.emits_exactly(e, [code], ["C07", "C03"])
+                ctx.check(f"{field} recorded", v_same(fld(e.heap, b.sref, field), v), e, ["C07"], "post")
+    return u
+
+
+_num_cmd("set_feed_rate", "feed-rate", "_current_feed_rate", None, True)
+_num_cmd("set_tool_power", "tool-power", "_current_tool_power", None, True)
+_num_cmd("set_bed_temperature", "bed-temperature", "_target_bed_temperature", "M140", False)
+_num_cmd("set_hotend_temperature", "hotend-temperature", "_target_hotend_temperature", "M104", False)
+_num_cmd("set_chamber_temperature", "chamber-temperature", "_target_chamber_temperature", "M141", False)
+
+
+# ---------------------------------------------------------------------------------------------- motion
+def requested_point(b):
+    """the Point the call asks for: the positional point if given, else Point(x, y, z) from the keyword arguments"""
+    p = b.args[-1] if isinstance(b.args[-1], VOpt) else b.args[0]
+    kd = b.h0[b.kwargs.oid]["$d"]
+    out = []
+    for i, a in enumerate("xyz"):
+        from_kw = merge(simp(kd.present[a]), kd.vals[a], VOpt(T, kd.vals[a].inner))
+        out.append(merge(simp(p.none), from_kw, p.inner.items()[i]))
+    return VPoint(*out)
+
+
+def motion_unit(ctx, method, code, absolute_bypass=False, extra_args=None):
+    mk = motion_args if extra_args is None else extra_args
+    b = B(ctx, method, mk)
+    req = requested_point(b)
+    o0 = b.h0[b.g.oid]
+    cur = o0["_current_axes"]
+    rel = o0["_distance_mode"].idx == b.rel_idx
+    kd = b.h0[b.kwargs.oid]["$d"]
+    # absolute target in builder coordinates, as the statement of C01/C03 defines it
+    tgt = []
+    for c, r in zip(cur.items(), req.items()):
+        c0 = merge(simp(c.none), num(0), c.inner)          # unknown current coordinate counts as 0
+        r0 = merge(simp(r.none), num(0), r.inner)
+        if absolute_bypass: tgt.append(merge(simp(r.none), c, VOpt(F, r.inner)))
+        else: tgt.append(merge(simp(rel), VOpt(F, n_add(c0, r0)), merge(simp(r.none), VOpt(F, c0), VOpt(F, r.inner))))
+    target = VPoint(*tgt)
+    pres, lo, hi = bounds_entry(b.h0, b.info["bounds"], "axes")
+    F_given = AND(kd.present["F"], NOT(kd.vals["F"].none)); S_given = AND(kd.present["S"], NOT(kd.vals["S"].none))
+    Fv, Sv = kd.vals["F"].inner, kd.vals["S"].inner
+    bad_F = AND(F_given, NOT(AND(bound_ok(b.h0, b.info, "feed-rate", Fv), NOT(n_lt(Fv, ZERO)), Fv.finite)))
+    bad_S = AND(S_given, NOT(AND(bound_ok(b.h0, b.info, "tool-power", Sv), NOT(n_lt(Sv, ZERO)), Sv.finite)))
+    bad_target = AND(pres, NOT(point_in_box(target, lo, hi)))
+    nonfinite = OR(*[AND(kd.present[k], NOT(kd.vals[k].none), NOT(kd.vals[k].inner.finite)) for k in kd.present if k not in ("comment", "x", "y", "z")],
+                   *[AND(NOT(c.none), NOT(c.inner.finite)) for c in req.items()],
+                   *[AND(NOT(c.none), NOT(c.inner.finite)) for c in cur.items()])
+    b.bad = dict(F=bad_F, S=bad_S, target=bad_target, nonfinite=nonfinite)
+    b.target, b.req = target, req
+    return b
+
+
+def _linear(method, code, bypass):
+    @unit(f"GCodeBuilder.{method}", GEN + ["C11"])
+    def u(ctx):
+        b = motion_unit(ctx, method, code, bypass)
+        bad = b.bad
+        # C03/C05: a call is rejected (ValueError) exactly when a bound, a negative or a non-finite value is involved
+        raises_iff(ctx, b.exits, {"ValueError": OR(bad["F"], bad["S"], bad["target"], bad["nonfinite"])}, props=["C03", "C02"])
+        known = None
+        if bypass:
+            rel = b.h0[b.g.oid]["_distance_mode"].idx == b.rel_idx
+            kd = b.h0[b.kwargs.oid]["$d"]
+            fs = OR(AND(kd.present["F"], NOT(kd.vals["F"].none)), AND(kd.present["S"], NOT(kd.vals["S"].none)))
+            kl = [("KF-C05-absolute-bypass-relative", rel), ("KF-C05-absolute-bypass-FS-then-axes", AND(NOT(rel), bad["target"], fs))]
+            known = {"C05": kl, "C07": lambda e: kl if e.kind == "raise" else None}
+        b.generic(known=known)
+        for e in b.exits:
+            if e.kind == "return":
+                ctx.check(f"position' == requested absolute target @{e.where}", v_same(e.heap[b.g.oid]["_current_axes"], b.target), e, ["C01", "C11"], "post")
+                ctx.check(f"state.position' == builder.position' @{e.where}", v_same(e.heap[b.sref.oid]["_current_axes"], e.heap[b.g.oid]["_current_axes"]), e, ["C01", "C07"], "post")
+                ctx.check(f"distance mode restored @{e.where}", e.heap[b.g.oid]["_distance_mode"].idx == b.h0[b.g.oid]["_distance_mode"].idx, e, ["C01", "C11"], "post")
+                ctx.canary("canary:x-requested", NOT(b.req.x.none), e)
+    return u
+
+
+_linear("move", "G1", False)
+_linear("rapid", "G0", False)
+_linear("move_absolute", "G1", True)
+_linear("rapid_absolute", "G0", True)
+
+
+@unit("GCodeBuilder.set_axis", GEN)
+def u_set_axis(ctx):
+    b = motion_unit(ctx, "set_axis", "G92", True)
+    bad = b.bad
+    raises_iff(ctx, b.exits, {"ValueError": OR(bad["target"], bad["nonfinite"])}, props=["C03", "C02"])
+    b.generic()
+    for e in b.exits:
+        if e.kind == "return":
+            b.emits_exactly(e, ["G92"], ["C01", "C07"])
+            ctx.check("position' == position.replace(requested)", v_same(e.heap[b.g.oid]["_current_axes"], b.target), e, ["C01"], "post")
+            ctx.check("state.position' == builder.position'", v_same(e.heap[b.sref.oid]["_current_axes"], e.heap[b.g.oid]["_current_axes"]), e, ["C01", "C07"], "post")
+
+
+@unit("GCodeBuilder.auto_home", GEN)
+def u_auto_home(ctx):
+    b = motion_unit(ctx, "auto_home", "G28", True)
+    bad = b.bad
+    req = b.req
+    none_req = AND(*[c.none for c in req.items()])
+    cur = b.h0[b.g.oid]["_current_axes"]
+    # (helper precondition read off the code) homing is also refused when an axis that is NOT homed currently sits outside the box
+    pres, lo, hi = bounds_entry(b.h0, b.info["bounds"], "axes")
+    rest = VPoint(*[merge(simp(OR(none_req, NOT(r.none))), VOpt(T, c.inner), c) for c, r in zip(cur.items(), req.items())])
+    raises_iff(ctx, b.exits, {"ValueError": OR(bad["nonfinite"], AND(pres, NOT(point_in_box(rest, lo, hi))))}, props=["C03", "C02"])
+    b.generic()
+    for e in b.exits:
+        if e.kind == "return":
+            b.emits_exactly(e, ["G28"], ["C01", "C07"])
+            new = e.heap[b.g.oid]["_current_axes"]
+            # homed axes (all of them when none is named) become unknown to the builder; the others keep their value
+            cs = [ITE(OR(none_req, NOT(r.none)), n.none, v_same(n, c)) for n, c, r in zip(new.items(), cur.items(), req.items())]
+            ctx.check("homed axes become unknown, others unchanged", AND(*cs), e, ["C01"], "post")
+
+
+def probe_args(ctx, st):
+    e, wf = sym_enum("ProbingMode", ctx.w, arg=True)
+    a, kw, wfa, reals = motion_args(ctx, st)
+    return [e] + a, kw, AND(wf, wfa), reals
+
+
+@unit("GCodeBuilder.probe", GEN)
+def u_probe(ctx):
+    b = motion_unit(ctx, "probe", "G38", False, extra_args=probe_args)
+    bad = b.bad
+    mode = b.args[0]
+    raises_iff(ctx, b.exits, {"ValueError": OR(NOT(valid(ctx, mode, "ProbingMode")), bad["F"], bad["S"], bad["target"], bad["nonfinite"])}, props=["C03", "C02"])
+    b.generic()
+    for e in b.exits:
+        if e.kind == "return":
+            b.emits_exactly(e, [PROBE], ["C01", "C07"])
+            pres, lo, hi = bounds_entry(b.h0, b.info["bounds"], "axes")
+            ctx.check("C03 probe target inside the axes box", IMP(pres, point_in_box(b.target, lo, hi)), e, ["C03"], "post")
+            new = e.heap[b.g.oid]["_current_axes"]
+            blk = emitted(e.log)[0][1]
+            cs = []
+            for A, n, t in zip(AXES, new.items(), b.target.items()):
+                p, v = ghost._axis_word(blk, A)
+                cs.append(ITE(p, n.none, v_same(n, t)))      # probed axes become unknown, the others are at the computed target
+            ctx.check("probed axes become unknown, others at target", AND(*cs), e, ["C01"], "post")
+
+
+# ---------------------------------------------------------------------------------------------- mode context managers (halves)
+def _cm_unit(method, want):
+    @unit(f"GCodeCore.{method}[with-body-skip]", ["C01", "C05", "C07", "C11"])
+    def u(ctx):
+        """with g.<method>(): pass   — enter and exit halves around an empty body, from either distance mode"""
+        b = B(ctx, "__verif_with__" + method, no_args) if False else None
+    return u
+
+
+@unit("GCodeBuilder.set_length_units", GEN + ["C12"])
+def u_units(ctx):
+    b = B(ctx, "set_length_units", enum_arg("LengthUnits"))
+    (m,) = b.args
+    raises_iff(ctx, b.exits, {"ValueError": NOT(valid(ctx, m, "LengthUnits"))}, props=["C02", "C05", "C12"])
+    b.generic()
+    for e in b.exits:
+        if e.kind == "return":
+            b.emits_exactly(e, [("G20", "G21")], ["C07", "C12"])
+            ctx.check("units recorded", fld(e.heap, b.sref, "_current_length_units").idx == m.idx, e, ["C07", "C12"], "post")
+
+
+@unit("GCodeBuilder.set_resolution", ["C05", "C12", "C07", "C01", "C02", "C03"])
+def u_set_res(ctx):
+    b = B(ctx, "set_resolution", one_num)
+    (v,) = b.args
+    raises_iff(ctx, b.exits, {"ValueError": n_le(v, ZERO)}, props=["C12", "C02"])
+    b.generic()
+    for e in b.exits:
+        if e.kind == "return":
+            b.emits_exactly(e, [], ["C12", "C07"], "nothing")
+            ctx.check("resolution recorded", v_same(fld(e.heap, b.sref, "_current_resolution"), v), e, ["C12"], "post")
+
+
+@unit("GCodeBuilder.set_fan_speed", GEN)
+def u_fan(ctx):
+    def mk(ctx, st):
+        v, wf = sym_num("speed"); n, wfn = sym_num("fan", isint=True, finite=True)
+        return [v, n], None, AND(wf, wfn, z3.IsInt(n.val)), [v.val, n.val]
+    b = B(ctx, "set_fan_speed", mk)
+    v, n = b.args
+    raises_iff(ctx, b.exits, {"ValueError": OR(n.val < 0, n_lt(v, ZERO), n_lt(num(255), v), NOT(v.finite))}, props=["C03", "C02"])
+    b.generic()
+    for e in b.exits:
+        if e.kind == "return": b.emits_exactly(e, ["M106"], ["C07"])
+
+
+@unit("GCodeBuilder.sleep", GEN)
+def u_sleep(ctx):
+    b = B(ctx, "sleep", one_num)
+    (v,) = b.args
+    raises_iff(ctx, b.exits, {"ValueError": OR(n_lt(v, ZERO), NOT(v.finite))}, props=["C03", "C02"])
+    b.generic()
+    for e in b.exits:
+        if e.kind == "return": b.emits_exactly(e, ["G04"], ["C07"])
